@@ -368,6 +368,8 @@ def run_c20(tier):
         from . import resolve
         if hasattr(resolve, "run_c20_resolver"):
             resolve.run_c20_resolver(check, tier)
+        if hasattr(resolve, "run_c20_deep"):
+            resolve.run_c20_deep(check, tier)
     except ImportError:
         pass
     return check.finish()
